@@ -149,3 +149,12 @@ plan("C07", "exploration",
      "x levels x wrappers (gzip with FEXTRA/FNAME/FCOMMENT/FHCRC) x cpu levels. Oracle: decode == concatenated input; streaming inflate == one-shot inflate. Non-trivial: >= 3 calls with a boundary inside the data.",
      lambda tier: [S("C07", 2400 if tier == "quick" else 120000)],
      assumptions=["after end_of_stream no more input is supplied", "compressed bytes may differ between schedules: only decoded data is compared"])
+
+plan("C06", "fault_enumeration",
+     "Mutants of valid streams (three encoders, all wrapper modes): every truncation, every single-bit flip, a byte substitution at every offset for streams <= 400 bytes; grammar-level single faults from the "
+     "deflate generator and wrapper-level single faults with padding (documented error class); random bytes and multiply damaged streams with small output limits; x APIs x chunk schedules x decode kernels. "
+     "Oracle: guard pages/canaries, documented codes, provable-livelock rule, lenient RFC 1951 reference (no false success), zlib agreement on strictly valid raw streams. "
+     "Non-trivial: mutant got past the wrapper and produced output.",
+     lambda tier: [S("C06", 2400 if tier == "quick" else 150000)],
+     assumptions=["error-class equality is asserted only for constructed single faults followed by >= 16 padding bytes", "incomplete code sets are a grey zone: neither acceptance nor rejection is an alarm",
+                  "rejection of something the lenient reference accepts is never an alarm"])
